@@ -66,6 +66,7 @@ func c06GuardSpecs() []GuardSpec {
 //   - a closure that runs synchronously inside its parent: it is created where
 //     the parent holds the lock in a sufficient mode (until its return) and is
 //     only called, or handed to a call, there — never `go`, never stored.
+//
 // Each closure exemption is recorded as an obligation of its own.
 func c06WithLockExempts(c *Ctx, R string, specs []GuardSpec, pkgs []string) []GuardSpec {
 	all := c05ModuleFuncs(c.P)
